@@ -9,6 +9,26 @@ def _close(a, b, scale, rtol=1e-8):
     return np.allclose(a, b, rtol=rtol, atol=rtol * scale)
 
 
+def special_rotation(rng, nps, m=1):
+    """orientations a tolerance or shortcut could mistake for something else: tiny tilts off the
+    identity, off a half turn, off an axis permutation; m > 1 gives a sweep through the special pose"""
+    kind = rng.choice(["tiny-tilt", "tiny-tilt", "near-half-turn", "near-axis-perm", "sweep-through-identity"])
+    axis = nps.normal(size=3)
+    axis /= np.linalg.norm(axis)
+    ang = np.deg2rad(10.0 ** nps.uniform(-6, 0, m)) * nps.choice([-1, 1], m)
+    if kind == "sweep-through-identity" and m > 1:
+        ang = np.deg2rad(np.linspace(-1, 1, m) * 10.0 ** nps.uniform(-3, 0))
+    tilt = R.from_rotvec(ang[:, None] * axis[None, :])
+    if kind == "near-half-turn":
+        base = R.from_rotvec(np.pi * np.eye(3)[rng.randrange(3)])
+    elif kind == "near-axis-perm":
+        base = R.from_matrix(np.array([[0, 0, 1], [1, 0, 0], [0, 1, 0]], float))
+    else:
+        base = R.identity()
+    out = tilt * base
+    return kind, (out if m > 1 else out[0])
+
+
 def c03_sweep(ctx, n):
     import magpylib as magpy
 
@@ -17,6 +37,11 @@ def c03_sweep(ctx, n):
         nps = np.random.default_rng(rng.randrange(2**31))
         cls = CLASSES[i % len(CLASSES)]
         src = make(cls, nps, path=rng.choice([1, 1, 2, 3]))
+        okind = "random"
+        if rng.random() < 0.4:  # special orientations of the source itself
+            okind, ori = special_rotation(rng, nps, len(src._position))
+            src.orientation = ori
+        per["ori:" + okind] = per.get("ori:" + okind, 0) + 1
         obs = far_points(nps, 4, lo=4, hi=9)
         field = rng.choice(["B", "H"])
         f0 = magpy.getB(src, obs, squeeze=False) if field == "B" else magpy.getH(src, obs, squeeze=False)
@@ -30,8 +55,8 @@ def c03_sweep(ctx, n):
         per[cls] = per.get(cls, 0) + 1
         sc = float(np.max(np.abs(f0))) + 1e-300
         if not _close(f1, exp, sc, 1e-7):
-            fails.append({"key": f"covariance:{cls}", "desc": f"get{field} not covariant under a common rigid motion",
-                          "replay": {"class": cls, "field": field, "quat": Q.as_quat().tolist(), "t": t.tolist(),
+            fails.append({"key": f"covariance:{cls}" if okind == "random" else f"covariance:{okind}", "desc": f"get{field} not covariant under a common rigid motion (source orientation: {okind})",
+                          "replay": {"class": cls, "field": field, "source_orientation_quat": src.orientation.as_quat().tolist(), "quat": Q.as_quat().tolist(), "t": t.tolist(),
                                      "max_abs_err": float(np.max(np.abs(f1 - exp))), "scale": sc, "source": repr(src.__dict__)[:600]}})
     # nested compounds moved as a whole through the collection API (rotate about own centre / anchor, then move)
     for i in range(max(6, n // 6)):
